@@ -191,6 +191,40 @@ def rule_roundtrip(ctx) -> None:
                             {"BcdVersion3": ctx.cls(MISC, "BcdVersion3")}, lv, floor=1)
 
 
+def rule_fill_word(ctx) -> None:
+    """C04.fill-word: the 32-bit word a FILL command carries is the given pattern repeated to fill the word (byte x4, half word x2; a
+    3-byte value is a word with a zero top byte), for every pattern width and at every width boundary; a wider pattern is refused.
+    CmdFill.__init__ is interpreted on model patterns (E19's object construction), the header word is read from the model object."""
+    from ..engines import ordereval as _oe
+    from ..engines import roundtrip
+    rt = roundtrip.RoundTrip(ctx, CMD, "CmdFill")
+    probs = []
+    pats = [0, 1, 0xA5, 0xFE, 0xFF, 0x100, 0x1234, 0xFFFE, 0xFFFF, 0x10000, 0xABCDEF, 0xFFFFFF, 0x1000000, 0x11223344, 0xFFFFFFFF, 0x100000000]
+    for pat in pats:
+        try:
+            obj = rt.ev("CmdFill(address=address, pattern=pattern, length=length)", {"address": 0x100, "pattern": pat, "length": 8})
+            got = rt.ev("obj._header.data", {"obj": obj})
+            got_p = rt.ev("obj.pattern", {"obj": obj})
+        except _oe.ModelRaise:
+            got, got_p = "raise", None
+        if pat > 0xFFFFFFFF:
+            want, want_p = "raise", None
+        elif pat <= 0xFF:
+            want = pat * 0x01010101
+            want_p = bytes([pat]) * 4
+        elif pat <= 0xFFFF:
+            want = pat * 0x00010001
+            want_p = pat.to_bytes(2, "big") * 2
+        else:
+            want = pat
+            want_p = pat.to_bytes(4, "big")
+        if got != want or (want_p is not None and isinstance(got_p, (bytes, bytearray)) and bytes(got_p) != want_p):
+            probs.append(f"pattern {pat:#x}: fill word {got if isinstance(got, str) else hex(got)} pattern bytes {bytes(got_p).hex() if isinstance(got_p, (bytes, bytearray)) else got_p}, expected {want if isinstance(want, str) else hex(want)}")
+    ctx.chk.exhaustive_rules.add("C04.fill-word")
+    ctx.chk.decide(not probs, "C04.fill-word", f"{CMD}::CmdFill.__init__", f"the fill word is the pattern repeated over the word, at every width and width boundary ({len(pats)} patterns)",
+                   "; ".join(probs[:3]), "byte x4 / half word x2 / word", A.loc(CMD, rt.cls.node))
+
+
 def rule_routes(ctx) -> None:
     chk, prog = ctx.chk, ctx.prog
     n = 0
@@ -626,11 +660,16 @@ def run(ctx) -> None:
     ctx.rule(rule_wire)
     ctx.rule(rule_routes)
     ctx.rule(rule_image_routes)
+    ctx.rule(rule_fill_word)
     ctx.rule(rule_roundtrip)
     ctx.rule(rule_setters)
     ctx.rule(rule_memid)
     ctx.rule(rule_mustcheck)
     ctx.rule(rule_counter)
+    # the block counter object itself (spsdk.crypto.symmetric.Counter) is decided by C09's object model; SB2 decryption relies on it
+    from . import c09 as _c09
+    ctx.rule(lambda c: c.borrow(_c09.rule_counter, "C09.counter.increment", "C04.counter-model.increment"))
+    ctx.rule(lambda c: c.borrow(_c09.rule_counter, "C09.counter.layout", "C04.counter-model.layout"))
     ctx.rule(rule_structure)
     ctx.rule(rule_timestamp)
     ctx.chk.assumptions = ["the ROM model itself (AES/HMAC/CRC values) is not re-implemented; crypto wrappers are decided in C09",
